@@ -45,6 +45,9 @@ pub const TEMPLATES: &[(&str, &str)] = &[
     ("self-redefinition", "(define (selfkill n) (set! selfkill #f) (let lp ((i 0) (acc '())) (if (< i n) (lp (+ i 1) (cons (list i \"s\") acc)) (list 'done acc)))) (selfkill 4) selfkill (define (mk-once) (lambda (x) (set! once #f) (list x (vector x \"t\")))) (define once (mk-once)) (once 1) once"),
     // a rest-argument list and apply's spread arguments exist only on the stack / in the callee's environment
     ("rest-arguments", "(define (rest-len . r) (if (null? r) 0 (+ 1 (apply rest-len (cdr r))))) (rest-len 1 (list 2) \"3\" (vector 4)) (apply rest-len (list (list 1) (list 2) (list 3))) ((lambda (a . r) (list a (reverse r))) (list 1) (list 2) (list 3))"),
+    // a procedure whose code is long (jump offsets in the hundreds and thousands, beyond the cells the prelude occupies),
+    // live across collections, then dropped, then more allocation
+    ("long-code", "(define (big x) (cond ((= x 0) 'a0) ((= x 1) 'a1) ((= x 2) 'a2) ((= x 3) 'a3) ((= x 4) 'a4) ((= x 5) 'a5) ((= x 6) 'a6) ((= x 7) 'a7) ((= x 8) 'a8) ((= x 9) 'a9) ((= x 10) 'a10) ((= x 11) 'a11) ((= x 12) 'a12) ((= x 13) 'a13) ((= x 14) 'a14) ((= x 15) 'a15) ((= x 16) 'a16) ((= x 17) 'a17) ((= x 18) 'a18) ((= x 19) 'a19) ((= x 20) 'a20) ((= x 21) 'a21) ((= x 22) 'a22) ((= x 23) 'a23) ((= x 24) 'a24) ((= x 25) 'a25) ((= x 26) 'a26) ((= x 27) 'a27) ((= x 28) 'a28) ((= x 29) 'a29) ((= x 30) 'a30) ((= x 31) 'a31) ((= x 32) 'a32) ((= x 33) 'a33) ((= x 34) 'a34) ((= x 35) 'a35) ((= x 36) 'a36) ((= x 37) 'a37) ((= x 38) 'a38) ((= x 39) 'a39) ((= x 40) 'a40) ((= x 41) 'a41) ((= x 42) 'a42) ((= x 43) 'a43) ((= x 44) 'a44) ((= x 45) 'a45) ((= x 46) 'a46) ((= x 47) 'a47) ((= x 48) 'a48) ((= x 49) 'a49) ((= x 50) 'a50) ((= x 51) 'a51) ((= x 52) 'a52) ((= x 53) 'a53) ((= x 54) 'a54) ((= x 55) 'a55) ((= x 56) 'a56) ((= x 57) 'a57) ((= x 58) 'a58) ((= x 59) 'a59) ((= x 60) 'a60) ((= x 61) 'a61) ((= x 62) 'a62) ((= x 63) 'a63) ((= x 64) 'a64) ((= x 65) 'a65) ((= x 66) 'a66) ((= x 67) 'a67) ((= x 68) 'a68) ((= x 69) 'a69) ((= x 70) 'a70) ((= x 71) 'a71) ((= x 72) 'a72) ((= x 73) 'a73) ((= x 74) 'a74) ((= x 75) 'a75) ((= x 76) 'a76) ((= x 77) 'a77) ((= x 78) 'a78) ((= x 79) 'a79) (else 'none))) (big 3) (list (big 79) (big 100)) (define big 0) (define (build n acc) (if (= n 0) acc (build (- n 1) (cons n acc)))) (define bl (build 60 '())) (apply + bl)"),
     // a ring of the newest continuations: older ones, and everything only they reach, must be reclaimable
     ("continuation-ring", "(define ring (make-vector 3 #f)) (define (cap i) (call/cc (lambda (c) (vector-set! ring (modulo i 3) c) i))) (let lp ((i 0) (acc 0)) (if (< i 9) (lp (+ i 1) (+ acc (cap i))) acc))"),
 ];
@@ -60,6 +63,9 @@ pub const LONG_TEMPLATES: &[(&str, &str)] = &[
     // the heap outgrows its first chunk while the list is being built; the list is then live only through cells of
     // both chunks, across further collections
     ("heap-growth", "(define (iota-list n) (let lp ((i n) (acc '())) (if (= i 0) acc (lp (- i 1) (cons i acc))))) (define ballast (iota-list 3300)) (define (churn n) (if (= n 0) 'ok (begin (list n n n) (churn (- n 1))))) (churn 200) (apply + ballast) (define ballast2 (iota-list 1500)) (churn 200) (list (length ballast) (apply + ballast2))"),
+    // structures nested 1500 deep through the car, through vectors and through closure environments: everything
+    // below the top must survive collections (the marker's depth is the structure's depth here)
+    ("deep-nesting", "(define (nest n x) (if (= n 0) x (nest (- n 1) (list x)))) (define (vnest n x) (if (= n 0) x (vnest (- n 1) (vector x)))) (define (cnest n f) (if (= n 0) f (cnest (- n 1) (lambda () f)))) (define deep (nest 1500 'leaf)) (define vdeep (vnest 1500 'vleaf)) (define cdeep (cnest 1500 (lambda () 'cleaf))) (define (levels x n) (if (pair? x) (levels (car x) (+ n 1)) (list n x))) (define (vlevels x n) (if (vector? x) (vlevels (vector-ref x 0) (+ n 1)) (list n x))) (define (clevels f n) (let ((g (f))) (if (procedure? g) (clevels g (+ n 1)) (list n g)))) (define (churn n) (if (= n 0) 'ok (begin (list n n n) (churn (- n 1))))) (churn 400) (list (levels deep 0) (vlevels vdeep 0) (clevels cdeep 0)) (churn 400) (list (levels deep 0) (vlevels vdeep 0) (clevels cdeep 0))"),
 ];
 
 pub fn schedule_json(s: &GcSchedule) -> serde_json::Value {
